@@ -175,6 +175,7 @@ func (f *Func) redefineInputs(opts ...Arg) (reflect.Type, error) {
 		Type:      structMarkerType,
 		Anonymous: true,
 	})
+	fieldNames := map[string]struct{}{}
 	for k, v := range state.InputSet {
 		log.Trace("input", "value", v)
 		if _, ok := inputsProvided[k]; ok {
@@ -183,6 +184,15 @@ func (f *Func) redefineInputs(opts ...Arg) (reflect.Type, error) {
 
 		switch v := v.(type) {
 		case *valueVertex:
+			// Two required inputs can share a name but differ in type or
+			// subtype. That can't be expressed as struct fields.
+			fieldName := strings.ToUpper(v.Name)
+			if _, ok := fieldNames[fieldName]; ok {
+				return nil, fmt.Errorf(
+					"redefine requires more than one input named %q", v.Name)
+			}
+			fieldNames[fieldName] = struct{}{}
+
 			sf = append(sf, reflect.StructField{
 				Name: strings.ToUpper(v.Name),
 				Type: v.Type,
